@@ -74,6 +74,26 @@ def replay(path, repo):
     return check.main([pid, '--tier', 'quick', '--repo', repo, '--no-canaries'])
 
 
+BASELINE_HASHES = os.path.join(ROOT, 'props', 'validated_function_hashes.json')
+
+
+def function_hashes(repo):
+    from pyvc.extract import Program
+    prog = Program(repo)
+    return {q: f.text_hash() for q, f in prog.functions.items()}
+
+
+def functions_changed_since_validation(repo):
+    """qualified names of repository functions whose text differs from the text the contracts were last validated against
+    (props/validated_function_hashes.json, written by tools/refresh_evidence.sh from the unchanged tree)"""
+    try:
+        base = json.load(open(BASELINE_HASHES))
+    except Exception:
+        return []
+    now = function_hashes(repo)
+    return sorted(q for q in set(base) | set(now) if base.get(q) != now.get(q))
+
+
 def run_check(pid, tier, repo, seed, opts):
     from pyvc import check
     t0 = time.time()
@@ -101,8 +121,19 @@ def run_check(pid, tier, repo, seed, opts):
         covers.update(r.get('covers', []))
     # ---- vacuity guards
     checker_errors = []
+    edited = None
+    engine_untrusted = False
     for r in results:
         if r['error']:
+            # a unit that cannot be run: on the function texts the contracts were validated against this is a defect of the
+            # checker (exit 3); on edited code it means the contract no longer matches the code -> undecided, the stand-in decides
+            if edited is None:
+                edited = functions_changed_since_validation(repo)
+            if edited:
+                undecided_units.append('%s: contract could not be run on the edited code (%s); edited since the contracts were validated: %s' % (
+                    r['unit'], r['error'].splitlines()[0][:160], ', '.join(edited[:4])))
+                r['undecided'] = list(r.get('undecided') or []) + ['unit could not be run on the edited code']
+                continue
             checker_errors.append('unit %s crashed: %s' % (r['unit'], r['error'][:400]))
         elif not r['obligations'] and not r['undecided']:
             checker_errors.append('unit %s generated zero obligations' % r['unit'])
@@ -133,7 +164,12 @@ def run_check(pid, tier, repo, seed, opts):
             canary_res.append({'canary': note, 'result': 'killed' if killed else ('undecided' if und else 'SURVIVED'),
                                'failed_obligations': [o['name'] for o in bad][:5]})
             if not killed and not und:
-                checker_errors.append('canary survived: %s' % note)
+                if edited is None:
+                    edited = functions_changed_since_validation(repo)
+                if edited:
+                    canary_res[-1]['result'] = 'survived on edited code (anchor text may have lost its role; not counted)'
+                else:
+                    checker_errors.append('canary survived: %s' % note)
     # ---- engine vs CPython differential (every check; also part of setup_cmd): a test of the trusted base
     diff_res = None
     if not opts.no_native:
@@ -142,7 +178,15 @@ def run_check(pid, tier, repo, seed, opts):
                                env=dict(os.environ, CARDUTIL_REPO=repo))
             diff_res = p.stdout.strip().splitlines()[-1] if p.stdout.strip() else 'no output'
             if p.returncode == 1:
-                checker_errors.append('engine disagrees with CPython: ' + diff_res)
+                if edited is None:
+                    edited = functions_changed_since_validation(repo)
+                if edited:
+                    # on edited code the engine left the part of Python it is validated for: its verdicts are not used, the
+                    # bounded stand-in decides
+                    engine_untrusted = True
+                    undecided_units.append('engine and CPython disagree on concrete runs of the edited code (%s): proof results not used' % diff_res)
+                else:
+                    checker_errors.append('engine disagrees with CPython: ' + diff_res)
         except subprocess.TimeoutExpired:
             diff_res = 'timeout'
     # ---- bounded stand-in when the proof is not complete (or always in the thorough tier)
@@ -196,7 +240,7 @@ def run_check(pid, tier, repo, seed, opts):
         if confirmed is not None:
             json.dump(rec, open(rp, 'w'), indent=1, default=str)
             violations.append((o, rp, ''))
-        elif o['tier'] == 'P' and o['status'] == 'sat':
+        elif o['tier'] == 'P' and o['status'] == 'sat' and not engine_untrusted:
             json.dump(rec, open(rp, 'w'), indent=1, default=str)
             violations.append((o, rp, ' no-failing-input-found'))
         else:
